@@ -208,7 +208,7 @@ Lemma routes_step : forall s l s', routes (s_pws s) -> step cfg s l = Some s' ->
 Proof.
   intros s l s' R H. destruct l; simpl in H.
   - inv_step H; simpl; auto.
-  - inv_step H; simpl. eapply routes_assign; eauto.
+  - inv_step H; simpl; [auto|eapply routes_assign; eauto].
   - inv_step H; simpl; apply routes_upd; auto.
     assert (Rp : route p0) by (apply R; eapply nth_error_In; eauto).
     fold (timer_pw p0 k). destruct (timer_pw_cases p0 k) as [->|(b & C & ->)].
@@ -330,7 +330,7 @@ Lemma seqinvs_step : forall s l s', seqinvs (s_pws s) -> step cfg s l = Some s' 
 Proof.
   intros s l s' R H. destruct l; simpl in H.
   - inv_step H; simpl; auto.
-  - inv_step H; simpl. eapply seqinvs_assign; eauto.
+  - inv_step H; simpl; [auto|eapply seqinvs_assign; eauto].
   - inv_step H; simpl; apply seqinvs_upd; auto.
     assert (Rp : seqinv p0) by (apply R; eapply nth_error_In; eauto).
     fold (timer_pw p0 k). destruct (timer_pw_cases p0 k) as [->|(b & C & ->)].
@@ -536,7 +536,7 @@ Lemma JJ_step : forall s l s', seqinvs (s_pws s) -> JJ s -> step cfg s l = Some 
 Proof.
   intros s l s' SI J H. destruct l; simpl in H.
   - (* Call *) inv_step H; (eapply JJ_same; [exact J|reflexivity|apply same_done_refl]).
-  - (* Assign *) inv_step H. eapply JJ_same; [exact J|reflexivity|]. simpl. eapply same_done_assign; eauto.
+  - (* Assign *) inv_step H; (eapply JJ_same; [exact J|reflexivity|]); simpl; [apply same_done_refl|eapply same_done_assign; eauto].
   - (* Timer *) inv_step H. eapply JJ_same; [exact J|reflexivity|]. simpl.
     eapply same_done_upd; eauto; fold (timer_pw p0 k);
       destruct (timer_pw_cases p0 k) as [->|(b & C & ->)]; auto;
@@ -772,7 +772,7 @@ Proof.
   intros s l s' H. destruct l; simpl in H;
     try (inv_step H; simpl; apply calls_ext_refl; fail).
   - inv_step H; simpl; apply calls_ext_snoc.
-  - inv_step H; simpl. eapply calls_ext_upd; eauto. intros; congruence.
+  - inv_step H; simpl; (eapply calls_ext_upd; [eauto|]); intros; congruence.
   - inv_step H; simpl; (eapply calls_ext_upd; [eauto|]); intros _; simpl; repeat split; try congruence.
     destruct (forallb is_none l); reflexivity.
   - inv_step H; simpl; (eapply calls_ext_upd; [eauto|]); intros _; simpl; repeat split; congruence.
@@ -784,7 +784,7 @@ Proof.
   intros s l s' H N. destruct l; simpl in H;
     try (inv_step H; simpl; auto; fail).
   - inv_step H; simpl; eapply admissible_NoDup; eauto.
-  - inv_step H; simpl. erewrite used_ids_upd; eauto.
+  - inv_step H; simpl; erewrite used_ids_upd; eauto.
   - inv_step H; simpl; erewrite used_ids_upd; eauto.
   - inv_step H; simpl; erewrite used_ids_upd; eauto.
 Qed.
@@ -836,9 +836,11 @@ Lemma CI_step : forall s l s', CI s -> step cfg s l = Some s' -> CI s'.
 Proof.
   intros s l s' [N P] H. split; [eapply step_used_ids; eauto|].
   destruct l; try (eapply prov_sub; [eapply step_calls_ext; eauto|eapply step_pws_sub; eauto; congruence|exact P]).
-  simpl in H. inv_step H. simpl.
+  simpl in H. inv_step H; simpl.
+  { eapply prov_sub; [|apply pws_sub_refl|exact P].
+    eapply calls_ext_upd; [eauto|]. intros; congruence. }
   intros p pw b m Np Hb Hm.
-  destruct (prov_assign _ _ _ _ _ _ _ E1 P _ _ _ _ Np Hb Hm) as [W|(i & I1 & I2)].
+  destruct (prov_assign _ _ _ _ _ _ _ E2 P _ _ _ _ Np Hb Hm) as [W|(i & I1 & I2)].
   - eapply witness_ext; [|exact W]. eapply calls_ext_upd; eauto. intros; congruence.
   - exists c, (mkCall (c_g c0) (c_msgs c0) l CWaiting), i. simpl.
     rewrite nth_error_upd_eq by (apply nth_error_Some; congruence).
